@@ -27,6 +27,10 @@ type scriptIn struct {
 	Start string `json:"start,omitempty"`
 	// Rands are the raw values the injected randIntn draws from (rnd stream): randIntn(n) = Rands[j] % n.
 	Rands []uint64 `json:"rands,omitempty"`
+	// Sweep (rnd stream): ignore Rands; the injected randIntn enumerates its whole range once — the j-th call
+	// returns j % n — and there are as many lookups as the first call's n. Under a uniform source every value of
+	// the range is equally likely, so the counts of one sweep are the exact distribution of the random picker.
+	Sweep bool `json:"sweep,omitempty"`
 }
 
 func errClass(err error) string {
@@ -210,11 +214,17 @@ func genScript(r *hx.Rand, text bool) ([]rt.Def, string) {
 				d.Tags = append(d.Tags, tg)
 			}
 		}
+		if len(d.Tags) > 0 && r.Chance(1, 12) {
+			d.Tags = append(d.Tags, d.Tags[r.Intn(len(d.Tags))]) // a tag listed twice
+		}
 		ds = append(ds, d)
 		if r.Chance(1, 30) {
 			// an unrelated route
 			ds = append(ds, rt.Def{Cmd: "add", Service: r.Pick(services), Src: "bar.com/", Dst: "http://o" + strconv.Itoa(i) + ":80/", WText: genWeightToken(r)})
 		}
+	}
+	if r.Chance(1, 5) {
+		ds = append(ds, reannounce(r, ds, src))
 	}
 	nw := 0
 	switch k := r.Intn(10); {
@@ -239,10 +249,10 @@ func genScript(r *hx.Rand, text bool) ([]rt.Def, string) {
 		case k == 0 || len(aim.Tags) == 0:
 			d.Service = aim.Service
 		case k == 1:
-			d.Tags = []string{aim.Tags[r.Intn(len(aim.Tags))]}
+			d.Tags = genCmdTags(r, aim.Tags, tags)
 		default:
 			d.Service = aim.Service
-			d.Tags = []string{aim.Tags[r.Intn(len(aim.Tags))]}
+			d.Tags = genCmdTags(r, aim.Tags, tags)
 		}
 		if r.Chance(1, 4) {
 			d.Src = strings.ToUpper(d.Src[:len(d.Src)/2]) + d.Src[len(d.Src)/2:]
@@ -252,8 +262,66 @@ func genScript(r *hx.Rand, text bool) ([]rt.Def, string) {
 			ds = append(ds, rt.Def{Cmd: "del", Service: r.Pick(services), Src: src})
 		}
 	}
+	if r.Chance(1, 10) {
+		ds = append(ds, reannounce(r, ds, src)) // as the very last command: nothing re-weighs the route afterwards
+	}
 	for i := range ds {
 		ds[i].Fill()
 	}
 	return ds, src
+}
+
+// reannounce repeats an earlier `route add` of the route src — the same instance (service, URL, tags)
+// announced again: mostly with a different weight (a second entry according to addTarget's identity of a
+// target), sometimes unchanged (the de-dup branch), sometimes with the tags in another order or for another
+// service.
+func reannounce(r *hx.Rand, ds []rt.Def, src string) rt.Def {
+	var adds []rt.Def
+	for _, d := range ds {
+		if d.Cmd == "add" && d.Src == src {
+			adds = append(adds, d)
+		}
+	}
+	d := adds[r.Intn(len(adds))]
+	d.Tags = append([]string(nil), d.Tags...)
+	switch k := r.Intn(8); {
+	case k == 0:
+		// identical
+	case k == 1 && len(d.Tags) >= 2:
+		d.Tags[0], d.Tags[len(d.Tags)-1] = d.Tags[len(d.Tags)-1], d.Tags[0]
+	case k == 2:
+		d.Service = "svc-" + string(rune('a'+r.Intn(3)))
+	default:
+		old := d.WText
+		for tries := 0; tries < 5 && d.WText == old; tries++ {
+			d.WText = genWeightToken(r)
+		}
+	}
+	return d
+}
+
+// genCmdTags draws the tag list of a `route weight` command: mostly one tag of the target aimed at, else
+// several of its tags, a tag listed twice or three times (contains() must treat the list as a set), a list
+// longer than the target's own, or a tag the target may not carry.
+func genCmdTags(r *hx.Rand, have, universe []string) []string {
+	one := func() string { return have[r.Intn(len(have))] }
+	switch k := r.Intn(20); {
+	case k < 10:
+		return []string{one()}
+	case k < 13:
+		t := one()
+		return []string{t, t}
+	case k < 15:
+		t := one()
+		return []string{t, one(), t}
+	case k < 18:
+		n := r.Range(2, 4)
+		out := make([]string, n)
+		for i := range out {
+			out[i] = one()
+		}
+		return out
+	default:
+		return []string{one(), r.Pick(universe)}
+	}
 }
